@@ -100,7 +100,10 @@ def target_case(draw):
         fail = "type"
     return {"kind": kind, "type": tkw, "groups": groups, "name": tname, "dim": dim, "unit": dunit, "declared": declared,
             "first": first, "mods": mods, "custom": use_custom, "fail": fail,
-            "fail_at": draw(st.integers(0, nmods - 1)), "indent": draw(st.integers(1, 3))}
+            "fail_at": draw(st.integers(0, nmods - 1)), "indent": draw(st.integers(1, 3)),
+            # two-stage parsing: the first `split` modifications are parsed with the definition, the rest on top of
+            # the returned environment (DIP(env)); 0 = everything in one parse
+            "split": draw(st.sampled_from([0, 0, 0, 1, 2]))}
 
 
 def strategies(tier):
@@ -110,7 +113,13 @@ def strategies(tier):
 # --------------------------------------------------------------------------- rendering and model
 
 def render(case):
+    return "\n".join(x for x in render_stages(case) if x is not None and x != "")
+
+
+def render_stages(case):
+    """-> [stage-1 text, stage-2 text or None]"""
     w = case["indent"]
+    marks = []
     lines = []
     if case["custom"]:
         n, v, u = CUSTOM[case["dim"]]
@@ -132,6 +141,7 @@ def render(case):
     if case["fail"] == "undeclared":
         mods = []
     for i, m in enumerate(mods):
+        marks.append(len(lines))
         val, unit, typed = m["val"], m["unit"], m["typed"]
         tkw = case["type"] + dimtxt
         if case["fail"] is not None and i == case["fail_at"]:
@@ -166,7 +176,11 @@ def render(case):
         if m["noise"]:
             lines.append(f"noise{i} float = {i}.5 s")
     lines.append("after bool = true")
-    return "\n".join(lines)
+    k = case.get("split", 0)
+    if k and k < len(marks):
+        cut = marks[k]
+        return ["\n".join(lines[:cut]), "\n".join(lines[cut:])]
+    return ["\n".join(lines), None]
 
 
 def _unit_factor(case, unit):
@@ -218,12 +232,17 @@ def check(case):
 
 def _check(case, v):
     from scinumtools.dip import DIP, Format
-    text = render(case)
+    stage1, stage2 = render_stages(case)
+    text = stage1 if stage2 is None else stage1 + "\n# ---- parsed on top of the returned environment ----\n" + stage2
     path = ".".join(case["groups"] + [case["name"]])
     try:
         with DIP(name=f"c14_{next(_uid)}") as p:
-            p.add_string(text)
+            p.add_string(stage1)
             env = p.parse()
+        if stage2 is not None:
+            with DIP(env, name=f"c14_{next(_uid)}") as p2:
+                p2.add_string(stage2)
+                env = p2.parse()
         tup = env.data(Format.TUPLE)
         typ = env.data(Format.TYPE)
     except Exception as e:
@@ -277,6 +296,8 @@ def _check(case, v):
         v.label("falsy_final")
     if any(m["unit"] and m["unit"].startswith("[") for m in case["mods"]):
         v.label("custom_unit")
+    if stage2 is not None:
+        v.label("two_stage")
     if exp is None:
         v.label("final_none")
     v.info = {"text": text}
